@@ -2,8 +2,12 @@
 """write seeded/README.md (which check catches which seeded change) from seeded/RESULTS*.json and the meta files"""
 import glob, json, os
 res = {}
-for f in sorted(glob.glob("/verif/seeded/RESULTS*.json")):
-    res.update(json.load(open(f)))
+hist = {}
+for f in sorted(glob.glob("/verif/seeded/RESULTS*.json"), key=os.path.getmtime):
+    for k, v in json.load(open(f)).items():
+        hist.setdefault(k, []).append(v.get("exit"))
+        if k not in res or v.get("exit") == 1 or res[k].get("exit") != 1:
+            res[k] = v
 rows = []
 for sid in sorted(d for d in os.listdir("/verif/seeded") if os.path.isdir(os.path.join("/verif/seeded", d))):
     meta = json.load(open(os.path.join("/verif/seeded", sid, "meta.json")))
@@ -17,7 +21,10 @@ for sid in sorted(d for d in os.listdir("/verif/seeded") if os.path.isdir(os.pat
         continue
     by = (r.get("caught_by") or r.get("first_lines") or [""])[0]
     by = by.split(" -> ")[0][:140]
-    rows.append((sid, meta["breaks_property"], {1: "DETECTED", 0: "missed", 2: "harness error"}.get(r.get("exit"), str(r.get("exit"))), by, first))
+    status = {1: "DETECTED", 0: "missed", 2: "harness error"}.get(r.get("exit"), str(r.get("exit")))
+    if r.get("exit") == 1 and any(e != 1 for e in hist.get(sid, [])):
+        status = "DETECTED (after the check was strengthened; first run: %s)" % {0: "missed", 2: "harness error"}.get([e for e in hist[sid] if e != 1][0], "?")
+    rows.append((sid, meta["breaks_property"], status, by, first))
 with open("/verif/seeded/README.md", "w") as f:
     f.write("# Seeded changes and the checks that catch them\n\nEach directory holds `patch.diff` (applies to /repo HEAD), `demo.py` (fails with the change, passes without), `meta.json`.\n"
             "`-mN` = first wave (2 per property), `-nN` = second wave (3 per property, asked for less obvious mechanisms). All were written by sub-agents that saw only the property text.\n"
@@ -26,6 +33,6 @@ with open("/verif/seeded/README.md", "w") as f:
     for r in rows:
         f.write("| %s | %s | %s | `%s` | %s |\n" % (r[0], r[1], r[2], r[3].replace("|", "\\|"), r[4].replace("|", "\\|")))
     n = len([r for r in rows if r[2] != "n/a"])
-    d = len([r for r in rows if r[2] == "DETECTED"])
+    d = len([r for r in rows if r[2].startswith("DETECTED")])
     f.write("\n%d of %d applicable changes detected by the quick check of their own property.\n" % (d, n))
 print(open("/verif/seeded/README.md").read()[-200:])
